@@ -20,7 +20,7 @@ MANIFEST = {
     "note": ("Trusted: Lean kernel + propext/Classical.choice/Quot.sound; the max-age regex, udn_from_usn, the location test and "
              "ip_version_from_location are hand-modelled for ASCII input and the URL grammar of the generator (sampled, not proved); "
              "header maps are the abstract maps of C16; datetime arithmetic is integer microseconds (overflow is C02's concern); "
-             "the judges read a location by the property text (Parse.locByText: http/https URL whose host is not loopback / IPv4 link-local); the library's three-substring test accepts more (open finding F03a, dedicated input stream); the model follows the library."),
+             "a location is judged by its parsed host (Parse.locUsable = is_usable_location: http/https URL whose host is not loopback / IPv4 link-local); F03a / F04a are fixed, their inputs stay as a regression stream; legacy shorthand hosts (127.1) are names."),
     "technique": "Lean 4 proof (invariants by induction over event histories) + generated-constant pins + model/implementation correspondence",
 }
 RULE = ("histories of raw SSDP datagrams (search responses, ssdp:alive/update/byebye, invalid and dropped packets) over 3 devices x 3 "
